@@ -4274,8 +4274,10 @@ applyOrderBy:
 		}
 		// Top-N heap optimisation: when ORDER BY is paired with a small
 		// constant LIMIT and no OFFSET, use a bounded heap instead of a
-		// full sort so that only N rows are kept in memory.
-		if stmt.limit != nil && stmt.offset == nil {
+		// full sort so that only N rows are kept in memory. With DISTINCT the
+		// limit applies to the deduplicated rows, which are only known after
+		// the sort: keeping N rows here could leave fewer than N distinct ones.
+		if stmt.limit != nil && stmt.offset == nil && !stmt.distinct {
 			if lv, lErr := evalExpAsInt(tx, stmt.limit, params); lErr == nil && lv > 0 && lv <= topNSortThreshold {
 				sortRdr.topNLimit = lv
 			}
